@@ -29,6 +29,8 @@ struct Section {
     /// Required Insert Count according to the reference, learned when decoded
     ric: u64,
     cancelled: bool,
+    /// its Section Acknowledgment has been counted by the reference's view of the encoder
+    acked: bool,
 }
 
 fn to_hf(f: &[Field]) -> Vec<HeaderField> {
@@ -74,6 +76,9 @@ fn simulate(ctx: &RunCtx) -> Result<(serde_json::Value, bool), Violation> {
     let mut ack_pending: Vec<u64> = vec![];
     let mut sections: Vec<Section> = vec![];
     let mut encoded = 0usize;
+    let mut next_stream = 0u64;
+    // streams the decoder side has cancelled: nothing more is sent on them
+    let mut cancelled_streams: std::collections::BTreeSet<u64> = Default::default();
     let mut cur_capacity = capacity;
     let mut max_capacity_seen = capacity;
     let mut steps = 0u32;
@@ -99,7 +104,8 @@ fn simulate(ctx: &RunCtx) -> Result<(serde_json::Value, bool), Violation> {
         let can_encode = encoded < nsections;
         let enc_avail = enc_tx.len() - enc_delivered;
         let dec_avail = dec_tx.len() - dec_delivered;
-        let undelivered: Vec<usize> = sections.iter().enumerate().filter(|(_, s)| !s.delivered && !s.cancelled).map(|(i, _)| i).collect();
+        // sections of one stream (header, then trailers) arrive in the order they were sent
+        let undelivered: Vec<usize> = sections.iter().enumerate().filter(|(i, s)| !s.delivered && !s.cancelled && !sections[..*i].iter().any(|e| e.stream == s.stream && !e.delivered && !e.cancelled)).map(|(i, _)| i).collect();
         let mut evs: Vec<u8> = vec![];
         if can_encode {
             evs.push(0);
@@ -137,7 +143,17 @@ fn simulate(ctx: &RunCtx) -> Result<(serde_json::Value, bool), Violation> {
                 // encode the next section
                 let nf = 1 + draw_usize(5);
                 let fields: Vec<Field> = (0..nf).map(|_| (NAMES[draw_usize(NAMES.len())].as_bytes().to_vec(), VALUES[draw_usize(VALUES.len())].as_bytes().to_vec())).collect();
-                let stream = 4 * encoded as u64;
+                // one section in four is the second one (the trailers) of the stream that carried the previous section
+                let stream = match sections.last() {
+                    Some(l) if !cancelled_streams.contains(&l.stream) && sections.iter().filter(|x| x.stream == l.stream).count() == 1 && chance(1, 4) => {
+                        obs::count("probe.second_section_on_a_stream");
+                        l.stream
+                    }
+                    _ => {
+                        next_stream += 4;
+                        next_stream - 4
+                    }
+                };
                 let mut block: Vec<u8> = vec![];
                 let mut ebuf: Vec<u8> = vec![];
                 let r = std::panic::catch_unwind(std::panic::AssertUnwindSafe(|| enc.encode(stream, &mut block, &mut ebuf, to_hf(&fields))));
@@ -156,7 +172,7 @@ fn simulate(ctx: &RunCtx) -> Result<(serde_json::Value, bool), Violation> {
                 if block.first().copied().unwrap_or(0) != 0 && cur_capacity / 32 != capacity / 32 {
                     capdiff.set(true);
                 }
-                sections.push(Section { stream, bytes: block, fields, delivered: false, done: false, blocked_seen: false, ric: 0, cancelled: false });
+                sections.push(Section { stream, bytes: block, fields, delivered: false, done: false, blocked_seen: false, ric: 0, cancelled: false, acked: false });
                 encoded += 1;
                 // blocked-stream limit as the reference sees it: sections whose Required Insert Count exceeds
                 // what the encoder knows the decoder has received
@@ -245,7 +261,9 @@ fn simulate(ctx: &RunCtx) -> Result<(serde_json::Value, bool), Violation> {
                     match ins {
                         DecInstr::InsertCountIncrement(k) => krc += k,
                         DecInstr::SectionAck(s) => {
-                            if let Some(sec) = sections.iter().find(|x| x.stream == *s) {
+                            // acknowledges the oldest unacknowledged section of that stream that has dynamic references
+                            if let Some(sec) = sections.iter_mut().find(|x| x.stream == *s && x.done && x.ric > 0 && !x.acked) {
+                                sec.acked = true;
                                 krc = krc.max(sec.ric);
                             }
                             ack_pending.push(*s);
@@ -288,7 +306,12 @@ fn simulate(ctx: &RunCtx) -> Result<(serde_json::Value, bool), Violation> {
             }
             _ => {
                 let i = blocked_now[draw_usize(blocked_now.len())];
-                sections[i].cancelled = true;
+                let st = sections[i].stream;
+                // the whole stream is abandoned: every section of it that has not been decoded is gone
+                for x in sections.iter_mut().filter(|x| x.stream == st && !x.done) {
+                    x.cancelled = true;
+                }
+                cancelled_streams.insert(st);
                 stream_canceled(sections[i].stream, &mut dec_tx);
                 obs::count("probe.stream_cancelled_while_blocked");
                 obs::ev("cancel", sections[i].stream, 0);
@@ -301,7 +324,13 @@ fn simulate(ctx: &RunCtx) -> Result<(serde_json::Value, bool), Violation> {
             return Err(mk("C20.table_exceeds_capacity", format!("encoder table size {cur_size} > capacity {max_size}")).fact("side", "encoder"));
         }
         // (re-)present every delivered, undecoded section to the decoder
-        for s in sections.iter_mut().filter(|s| s.delivered && !s.done && !s.cancelled) {
+        // (a stream's second section is only looked at once its first has been decoded)
+        let presentable: Vec<usize> = sections.iter().enumerate().filter(|(i, s)| s.delivered && !s.done && !s.cancelled && !sections[..*i].iter().any(|e| e.stream == s.stream && !e.done && !e.cancelled)).map(|(i, _)| i).collect();
+        for i in presentable {
+            if sections[..i].iter().any(|e| e.stream == sections[i].stream && !e.done && !e.cancelled) {
+                continue;
+            }
+            let s = &mut sections[i];
             if s.bytes.first().copied().unwrap_or(0) != 0 && refd.capacity as usize / 32 != capacity / 32 {
                 capdiff.set(true);
             }
